@@ -135,6 +135,9 @@ class Bitmap:
         last_window = -1
         if windows is None:
             windows = []
+        # Keep our own copy of what the caller handed in, with immutable
+        # entries.
+        windows = [(window, bitmap) for window, bitmap in windows]
         self.windows = windows
         for window, bitmap in self.windows:
             if not isinstance(window, int):
